@@ -244,8 +244,21 @@ def run(ctx):
                         dzr = fl.settings.factory_manager.defuzzifier.construct(k)
                         dzr.configure(str(r))
                     else:
-                        dzr = getattr(fl, k)(r)
-                    res[k] = np.atleast_1d(np.asarray(dzr.defuzzify(agg, lo, hi), dtype=float))
+                        # (the resolution as a Python int, a NumPy integer - a sweep over np.array([...]) - or by keyword)
+                        given = [r, np.int64(r), np.int32(r), r][i % 4]
+                        dzr = getattr(fl, k)(given) if i % 8 < 4 else getattr(fl, k)(resolution=given)
+                        ctx.evaluated()
+                        ctx.hit("compare:defuzzifier holds the resolution it was given")
+                        if int(dzr.resolution) != r:
+                            ctx.violation(f"{k}: a defuzzifier does not hold the resolution it was given", {"given": repr(given)}, r, dzr.resolution)
+                            res[k] = None
+                            continue
+                    handed = dzr.defuzzify(agg, lo, hi)
+                    res[k] = np.atleast_1d(np.array(handed, dtype=float, copy=True))
+                    if isinstance(handed, np.ndarray) and handed.flags.writeable and i % 3 == 0:
+                        # the result belongs to the caller, who may fill in its undefined entries in place (as OutputVariable does)
+                        handed[...] = np.where(np.isnan(handed), 12345.0, handed)
+                        ctx.hit("event:a result edited in place by its owner")
                 except Exception:
                     res[k] = None  # judged by the monitor
             # batch == set by set (exact)
@@ -479,6 +492,7 @@ def run(ctx):
         ctx.require(f"piece:{k}:tie")
     for k in ("MeanOfMaximum", "SmallestOfMaximum", "LargestOfMaximum"):
         ctx.require(f"piece:{k}:maximum attained at several sample points")
+    ctx.require("compare:defuzzifier holds the resolution it was given", "event:a result edited in place by its owner")
     ctx.require("workload:set defuzzified over a window of its own range", "event:a grid handed out by Op.midpoints modified by its owner")
     ctx.require("workload:range far from the origin, very narrow or very wide", "crisp user term defuzzified", "environment:errstate-invalid-raise", *[f"environment:{e}" for e in ENVIRONMENTS])
     ctx.require("law:SOM<=MOM<=LOM", "law:batch==per-set", "law:centroid-translation", "resolution:1", "resolution:1000", "event:reuse after resolution change", "event:reuse after degrees change", "event:reuse after parameter change", "event:different terms of the set carry the same name", "workload:resolution above 4096")
